@@ -16,7 +16,7 @@ MANIFEST = {
 THEOREMS = ['C11.write_exact', 'C11.write_exact_drained', 'C11.queue_conserved', 'C11.eagain_tolerated',
             'C11.eagain_limit', 'C11.drains', 'C11.read_is_function_of_stream', 'C11.read_chunk_independent',
             'C11.read_delivers_lines', 'C11.read_chunks_from_any_state', 'C11.framing_exact',
-            'C11.reconnect_drops_rest_of_chunk', 'C11.decode_encode', 'C11.line_roundtrip', 'C11.never_crashes', 'C11.flushed_when_removed_partial',
+            'C11.reconnect_drops_rest_of_chunk', 'C11.ping_timeout_reconnect_clean', 'C11.decode_encode', 'C11.line_roundtrip', 'C11.never_crashes', 'C11.flushed_when_removed_partial',
             'C11.zombie_short_write_loses_tail']
 TRUSTED = ['Lean 4.33.0 kernel; axioms ⊆ {propext, Classical.choice, Quot.sound}',
            'harness/c11.py: FakeSocket (send accepts a scripted prefix / raises a scripted error; recv returns scripted chunks), StubIrc (FIFO + PING→PONG), generators, canonical state dump',
@@ -69,7 +69,7 @@ class RawMsg(object):
 class StubIrc(object):
     network = 'test'
     def __init__(self, ircmsgs, rig):
-        self.q = []; self.fed = []; self.zombie = False; self.driver = None; self.reconnect_requests = 0
+        self.q = []; self.fed = []; self.zombie = False; self.driver = None; self.reconnect_requests = 0; self.ping_due = False
         self.ircmsgs = ircmsgs; self.rig = rig
     def __str__(self): return 'StubIrc'
     __repr__ = __str__
@@ -79,6 +79,11 @@ class StubIrc(object):
     def takeMsg(self):
         if self.q:
             m = self.q.pop(0); self.rig.sock.taken.append(m); return m
+        if self.ping_due:
+            # Irc.takeMsg with both queues empty and a PING outstanding past its interval: driver.reconnect()
+            self.ping_due = False; self.reconnect_requests += 1
+            self.driver.reconnect()
+            return None
         if self.zombie:
             # Irc.takeMsg: self.driver.die(); self._reallyDie() (which calls driver.die() again)
             self.driver.die(); self.driver.die()
@@ -97,6 +102,7 @@ class StubIrc(object):
                 self.reconnect_requests += 1; self.driver.reconnect(wait=True)
     def reset(self):
         self.q = []                                  # Irc.reset(): queue.reset(), fastqueue.reset()
+        self.ping_due = False                        # … outstandingPing = False
 
 class Rig(object):
     def __init__(self):
@@ -177,6 +183,7 @@ def op_line(op):
     if k == 'sr': return 'sr\t' + res_str(op[1])
     if k == 'die': return 'die'
     if k == 'tick': return 'tick'
+    if k == 'pt': return 'pt'
     if k == 'loop': return 'loop'
     raise ValueError(op)
 
@@ -220,6 +227,7 @@ def run_history(rig, ops, irc=None):
         elif k == 'sr': fs.recvs.append(op[1])
         elif k == 'die': stub.zombie = True
         elif k == 'tick': rig.offset += 100000
+        elif k == 'pt': stub.ping_due = True
         elif k == 'loop': rig.drivers.run()
         outs.append(dump(rig, d, stub, fs, st))
     fs = rig.sock
@@ -367,7 +375,7 @@ def gen_mixed_case(rig, r):
             s = gen_stream(r)
             ops += [('sr', ('d', c)) for c in partition(r, s, r.choice(['random', 'targeted', 'one']))]
         elif k < 13: ops.append(('sr', r.choice([('d', b''), ('e', 104), ('e', 11), ('t',), ('T',)])))
-        elif k < 14: ops.append(r.choice([('die',), ('tick',), ('tick',)]))
+        elif k < 14: ops.append(r.choice([('die',), ('tick',), ('tick',), ('pt',), ('pt',)]))
         else: ops.append(('loop',))
     ops += [('loop',)] * 3
     return ops
@@ -462,6 +470,7 @@ def case_tags(ops, outs, obs):
     if obs['pongs']: t.add('pong')
     if len(obs['epochs']) > 1: t.add('reconnected')
     if any(o[0] == 'tick' for o in ops): t.add('tick')
+    if any(o[0] == 'pt' for o in ops): t.add('ping-timeout')
     if any(any(ord(ch) > 127 for ch in o[1]) for o in ops if o[0] == 'q'): t.add('multibyte-out')
     return tuple(sorted(t))
 
